@@ -5,7 +5,7 @@ import HcipyVerif.Model.FftIndex
 # Passive optics (executable model for the passive half of C07) — core Lean only
 
 Scalar-polymorphic like `Model/Jones.lean`: run at `Rat` by `Driver/C07.lean` (ops `mask`, `fibre`,
-`knife`, `phase`), proved about at `ℝ`/`ℂ` in `Properties/C07.lean`.  A field of `n` pixels is a function
+`knife`, `knifet`, `maskpol`), proved about at `ℝ`/`ℂ` in `Properties/C07.lean`.  A field of `n` pixels is a function
 `Nat → Cx K` read on `0 … n-1`; sums are `Fft.sumRange` (shared with the FFT model of C01/C02).
 
 * `maskFwd / maskBwd`   — `Apodizer.forward / backward`: `E·t`, `E·conj t`; the grid (weights) is returned unchanged;
@@ -33,6 +33,13 @@ def maskFwd (t E : Nat → Cx K) : Nat → Cx K := fun i => E i * t i
 
 /-- `Apodizer.backward` -/
 def maskBwd (t E : Nat → Cx K) : Nat → Cx K := fun i => E i * (t i).conj
+
+/-- A scalar transmission acting on one pixel of a Jones-matrix (partially polarised) wavefront: every entry times `t`
+(`Apodizer.forward`: `electric_field *= apodization` broadcasts over the tensor indices). -/
+def maskJ (t : Cx K) (e : J2 K) : J2 K := e.scale t
+
+/-- … of a Jones-vector wavefront. -/
+def maskV (t : Cx K) (e : V2 K) : V2 K := ⟨e.x * t, e.y * t⟩
 
 /-- `np.dot(E.conj() * weights, mode)` -/
 def fibreAmp (E m : Nat → Cx K) (w : Nat → K) (n : Nat) : Cx K :=
